@@ -1,13 +1,26 @@
 """C30 — CI merges only fully tested, approved, current PRs (ci/ci/github.py: PR, WatchedBranch).
 
-Tie: X.  coq/theories/CI/Model.v is a hand-written event-sourced model (GitHub truth, batch-service truth, CI's beliefs) of
+Tie: X + T.  coq/theories/CI/Model.v is a hand-written event-sourced model (GitHub truth, batch-service truth, CI's beliefs) of
 update_from_gh_json / _update_github / _update_batch / _heal / is_mergeable / try_to_merge; CI/Lemmas1-3.v prove, for ALL
 event histories, that every merge is safe and that no two merges use the same target commit.  The correspondence drives
 the REAL PR / WatchedBranch objects (scripted fake GitHub, fake batch service, fake database) and the model with the same
 histories and compares the full observable state after every event; a second correspondence runs the real `_update` loop
 (notify_github_changed / notify_batch_changed / update) and checks that it is a composition of the model's events.
-Oracle: the property on the implementation only — every merge the real objects perform is checked against the provenance
-the fakes recorded (for which head commit the review decision and each status were obtained, the batch's real state).
+
+That model treats _update_github / _update_batch / _heal(+try_to_merge) as atomic events, which is sound only if at most one
+coroutine is ever inside the body of `_update`.  The re-entrancy guard (`WatchedBranch.updating` + the three `*_changed`
+flags) is modelled and proved on its own: harness/translate/c30_guard.py TRANSLATES the control skeleton of `_update`,
+`notify_github_changed`, `notify_batch_changed`, `update` (and checks over ci/ci/*.py who writes the flags and who calls
+`_update`; fails closed), CI/GuardTie.v proves the translation equal to the hand-written skeleton of CI/Guard.v (a small-step
+interpreter with Python's return / exception / finally semantics, run one atomic segment at a time under an arbitrary scheduler),
+and CI/GuardLemmas.v proves mutual exclusion, no lost wake-up and progress for every interleaving of any number of notifications.
+A third correspondence (harness/impl/c30_guard.py) runs the real notification coroutines as OVERLAPPING tasks on the
+deterministic loop (harness/aio/tickloop.py) with every fake call a suspension point, fires 2-5 notifications at every await
+point, and compares flags / task positions with CI/Guard.v after every atomic segment.
+
+Oracle: the property on the implementation only — every merge the real objects perform (sequential histories, pushes racing the
+merge request, overlapping notifications) is checked against the provenance the fakes recorded (for which head commit the review
+decision and each status were obtained, the batch's real state); and never two tasks inside sub-operations of `_update` at once.
 """
 import json
 import os
@@ -22,26 +35,51 @@ READY = True
 META = dict(
     design_ref='§5.E C30',
     technique='Coq proof by invariant over all event histories of a hand model of PR/WatchedBranch; step-by-step state correspondence '
-              'with the real objects driven by the same histories against scripted fakes',
+              'with the real objects driven by the same histories against scripted fakes; the re-entrancy guard of _update: control '
+              'skeleton translated from the source (T, fail closed), interpreted by a small-step semantics under an arbitrary scheduler, '
+              'invariant proof over all schedules, and a segment-by-segment correspondence with the real coroutines run as overlapping '
+              'tasks on the deterministic event loop',
     level_text='Machine-checked (Coq 8.16, no axioms): for EVERY history of Open / Push / Review / Label / Status / TargetMove / BatchComplete / '
                'Fetch (complete or failing after k pull requests) / UpdateBatch / Heal(+TryMerge) events, every merge the model performs has: '
                'review approved and fetched for the merged head, no do-not-merge label, a non-empty set of statuses that are all success and '
                'all obtained for the merged head, a test batch built from the merged head against the target commit CI holds as current '
                'that really completed successfully, and GitHub\'s head equal to the merged commit; and no two merges use the same target '
                'commit. The model is of the code with fixes/C30.diff; the unfixed code is shown to merge with a review decision and '
-               'statuses fetched for the previous head.',
+               'statuses fetched for the previous head. '
+               'The atomicity of those events is no longer assumed: for the control skeleton of WatchedBranch._update / notify_github_changed / '
+               'notify_batch_changed / update translated from the source on every run (C30_guard_skeleton_is_source), and for EVERY schedule - any '
+               'number of notification tasks created at any time and interleaved in any order at the await points, sub-operations that suspend any '
+               'number of times, set any *_changed flag, return or raise - at most one task is inside _update_github / _update_batch / _heal / '
+               'try_to_merge and `updating` is True exactly then (C30_guard_mutual_exclusion); a set *_changed flag always has a task that will '
+               're-test it, and at quiescence every flag written True (also by a notification that found an update running and returned at once) '
+               'has been cleared by a later loop iteration, unless an exception escaped from _update (C30_guard_set_flag_has_server, '
+               'C30_guard_no_lost_wakeup, C30_guard_dropped_only_by_exception); and the loop ends within seven segments once the sub-operations '
+               'stop setting flags (C30_guard_progress).',
     level_note='Partial: GitHub and the batch service are scripted fakes (GitHub accepts a merge iff the PR is open and its head is the sha '
                'sent; every push creates a commit never seen before; a Fetch sees one consistent GitHub snapshot); "current target commit" '
                'is the one CI last fetched; deploy batches, freezing, authorisation (all authors authorised) and failing checkouts are '
-               'not modelled.',
+               'not modelled. Guard: proved for the cooperative (asyncio) scheduling model - pre-emption only at awaits, every await of a '
+               'sub-operation treated as a suspension point; that the sub-operations only ever SET the *_changed flags and never write `updating`, '
+               'and that `_update` is reached only through the three notification methods, is a syntactic check over ci/ci/*.py made by the '
+               'translator on every run, not a theorem; the link "one task inside the sub-operations => the real sub-operations behave as the atomic '
+               'events of CI/Model.v" is checked by the run (overlapping-notification schedules judged by the merge oracle), not proved; request '
+               'handlers that change PR state outside _update (the developer retry endpoint) are not modelled.',
     partial=True,
 )
 TRUSTED = ['hand model coq/theories/CI/Model.v (tied by the step-by-step correspondence below)',
            'harness/impl/c30_ci.py: fake GitHub REST/GraphQL, fake batch client, fake database, patched check_shell / BuildConfiguration',
-           'loader stubs gidgethub, zulip, prometheus_client; /global-config supplied through gear.cloud_config']
+           'loader stubs gidgethub, zulip, prometheus_client; /global-config supplied through gear.cloud_config',
+           'harness/translate/c30_guard.py (Python ast -> CI.Guard.stmt; the statement semantics of CI/Guard.v: return / raise / finally, '
+           'while, if, short-circuit `or` over side-effect-free operands)',
+           'harness/impl/c30_guard.py + harness/aio/tickloop.py: gated fakes (a future per fake call) on a hand-stepped CPython asyncio loop; '
+           'the model events of a real segment are derived from the entry / exit records of the four wrapped sub-operations']
 ASSUMPTIONS = ['one consistent GitHub snapshot per _update_github; pushes create fresh commits; GitHub rejects a merge whose sha is not the head',
                'all PR authors are authorised; the watched branch is mergeable, not deployable, not frozen',
-               '_update_github, _update_batch, _heal(+try_to_merge) are atomic with respect to each other (WatchedBranch.updating)']
+               'REPLACES the former assumption "_update_github, _update_batch, _heal(+try_to_merge) are atomic with respect to each other '
+               '(WatchedBranch.updating)", which is now the theorem C30_guard_mutual_exclusion: all notifications of a WatchedBranch run as '
+               'coroutines of ONE asyncio event loop (cooperative scheduling: a task loses control only at an await that suspends)',
+               'GitHub / batch-service events do not land in the middle of a sub-operation in the sequential model (Model.v); the overlapping-'
+               'notification runs do interleave them (world events between segments) and are judged by the merge oracle only']
 
 DEC = {'APPROVED': 'DApproved', 'CHANGES_REQUESTED': 'DChanges', 'REVIEW_REQUIRED': 'DRequired', 'NONE': 'DNone'}
 ST = {'SUCCESS': 'SSuccess', 'PENDING': 'SPending', 'FAILURE': 'SFailure'}
